@@ -268,6 +268,12 @@ def check_signed(net, code, se, comp, msg, armour_ok, rec, m, rng, light=False, 
         ok, sig2 = call(rec, case, "signature_for_message_hash", net.msg.signature_for_message_hash, se, z, comp)
         if ok:
             judge_signature(rec, case, m, sig2, z, Pref, comp, ".sign_hash")
+        if (se + len(msg)) % 3 == 0:
+            # the same request with one coordinate changed: the other compression flag, signed right after
+            rec.ev("sign(same key and message, other compression)")
+            ok, sig3 = call(rec, case, "sign", net.msg.sign, net.keys.private(se, is_compressed=not comp), msg)
+            if ok:
+                judge_signature(rec, dict(case, then="other compression"), m, sig3, z, Pref, not comp, ".after_other_compression")
     # positive verifications
     addr = key.address()
     pub = net.keys.public(Pref, is_compressed=comp)
@@ -773,6 +779,11 @@ def run_episode(rng, rec, m, codes, steps, first):
                     cur["compressed"] = not cur["compressed"]
                 else:
                     cur["net"] = nets[1] if cur["net"] == nets[0] else nets[0]
+            if rng.random() < 0.25:
+                # sign for the request as it now stands (one coordinate away from the last thing signed or verified)
+                cur["sig"] = aligned()
+                if cur["sig"] is None:
+                    return
         w = rng.random()
         if w < 0.08:
             run({"op": "pair", "net": cur["net"], "sig": cur["sig"], "msg": cur["msg"]})
